@@ -52,7 +52,7 @@ REQUIRED = ["union_volume_checked", "level1_checked", "level2_checked", "levels_
             "tangent_neighbours", "disjoint_neighbours", "growing_radii", "tapering_radii",
             "frontend_checked", "named_levels_checked", "same_skeleton_other_radii",
             "zero_radius_tips", "far_exact_layouts"]
-FLOOR = {"quick": 700, "thorough": 14000}
+FLOOR = {"quick": 500, "thorough": 10000}
 SHARDS = {"quick": 8, "thorough": 16}
 TIMEOUT = {"quick": 400, "thorough": 3000}
 RTOL = 2e-4
